@@ -354,6 +354,8 @@ def o_integral_quad(ctx, case):
     tol = rtol * abs(ref) + 1e-300
     if spec['kind'] == 'gauss':     # erf(x2) - erf(x1): a few ulps of the total area are lost in the tails
         tol += 1e-14 * 2.6 * abs(float(prof.sigma_t))
+        # a bound within a few ulps of a support edge (after the unit conversion): value (<= 1) x ulp of the time
+        tol += 8e-16 * max([abs(x) for x in (a, b, float(prof.t_start), float(prof.t_stop)) if np.isfinite(x)] + [0.0])
     elif spec['kind'] in T_KINDS:   # differences of (MJD-sized) times
         tol += 1e-15 * max(abs(x) for x in (a, b, float(prof.t_start), float(prof.t_stop)) if np.isfinite(x))
     if not abs(got - ref) <= tol:
@@ -414,7 +416,10 @@ def o_units(ctx, case):
         if err:
             return err
         fo = float(unit(u1).to(unit(spec['unit'])))
-        if not abs(w[0] - w[1]) <= 1e-9 * (abs(w[0]) + abs(w[1])) + pl_noise(spec, [lo * fo, hi * fo] * 2) + 1e-300:
+        gi = lambda a_, b_: float(np.atleast_1d(prof.get_integral(a_, b_, unit=unit(u1)))[0])  # noqa
+        with np.errstate(all='ignore'):       # conditioning w.r.t. a few-ulp change of each bound
+            sens_i = sum(abs(gi(lo * (1 + d1), hi * (1 + d2)) - w[0]) for d1, d2 in ((9e-16, 0), (-9e-16, 0), (0, 9e-16), (0, -9e-16)))
+        if not abs(w[0] - w[1]) <= 1e-9 * (abs(w[0]) + abs(w[1])) + pl_noise(spec, [lo * fo, hi * fo] * 2) + 2 * sens_i + 1e-300:
             return '%r: integral over [%r,%r] %s = %r but over the same interval in %s = %r' % (spec, lo, hi, u1, w[0], u2, w[1])
     return None
 
@@ -802,7 +807,19 @@ def o_model_call(ctx, case):
             g2, err = _try(lambda: np.asarray(m(**a2, **kw2), dtype=np.float64), desc)
             if err:
                 return err
-            if not _relclose(g1, g2, 1e-9):
+            # conditioning: the converted arguments carry a rounding error of a few ulps (x * f12, then * f21 inside,
+            # f12 * f21 != 1 exactly); allow the change of the result under such a perturbation of the argument
+            # (narrow gaussians at MJD-sized / 1e9-s-sized times, steep power laws)
+            key_ = 'E' if which == 'energy_unit' else 't'
+            sens = np.zeros_like(g1)
+            with np.errstate(all='ignore'):
+                for dlt in (9e-16, -9e-16):
+                    ap = dict(ra=ra, dec=dec, E=E, t=t)
+                    ap[key_] = arr * (1 + dlt)
+                    gp = np.asarray(m(**ap, **kw), dtype=np.float64)
+                    sens = np.maximum(sens, np.abs(gp - g1))
+            ok_ = (g1 == g2) | (np.abs(g1 - g2) <= 1e-9 * np.maximum(np.abs(g1), np.abs(g2)) + 4 * sens)
+            if g1.shape != g2.shape or not bool(np.all(ok_)):
                 return '%s: %s=%s at %r gives %r, the same points with %s=%s give %r' % (desc, which, u1n, arr.tolist(), g1.tolist(), which, u2, g2.tolist())
     return None
 
@@ -814,12 +831,14 @@ def o_move_unit(ctx, case):
     if err:
         return err
     b = build(spec)
+    b0 = build(spec)
     f = float(unit(u).to(unit(spec['unit'])))
     _, err = _try(lambda: (a.move(dt, unit=unit(u)), b.move(dt * f)), 'move(%r, unit=%s) of %r' % (dt, u, spec))
     if err:
         return err
     wa, wb = [float(a.t_start), float(a.t_stop)], [float(b.t_start), float(b.t_stop)]
-    if not _close(wa, wb, group=True):
+    w0 = [x for x in (float(b0.t_start), float(b0.t_stop)) if np.isfinite(x)]
+    if not _close(wa, wb, group=True, atol=4e-16 * (abs(dt * f) + max([abs(x) for x in w0] + [0.0]))):
         return 'move(%r, unit=%s) of %r gives the window %r, move(%r) in the own unit %r' % (dt, u, spec, wa, dt * f, wb)
     return None
 
